@@ -46,6 +46,7 @@ func init() {
 		c10LimitBeforeRead(c, "C09.7b")
 		c19Pairing(c) // C09.8: no per-packet resource growth — a timer holder is overwritten only after the previous timer was cleared, every timer is cancelled by its owner's teardown
 		c19WhoClears(c)
+		c19HolderWrites(c, "C09.3f")
 	})
 }
 
